@@ -104,6 +104,8 @@ pub struct Stats {
     pub stale_callbacks: Cell<u64>,
     pub cap_hits: Cell<u64>,
     pub leave_ops: [Cell<u64>; 6],
+    pub beyond_limit: Cell<u64>,
+    pub limit_refusals: Cell<u64>,
 }
 
 pub fn bump(c: &Cell<u64>) {
@@ -122,6 +124,10 @@ pub struct World {
     pub wr: [RefCell<Option<Weak<Node>>>; NWR],
     #[cfg(feature = "cleaners")]
     pub cr: [RefCell<Option<Cleanable>>; NC],
+    /// the program's pool of extra handles (Act::Bulk): (object id, handle)
+    pub bulk: RefCell<Vec<(u32, Cc<Node>)>>,
+    #[cfg(feature = "weak-ptrs")]
+    pub wbulk: RefCell<Vec<(u32, Weak<Node>)>>,
     pub m: RefCell<Model>,
     pub stack: RefCell<Vec<Frame>>,
     pub errs: RefCell<Vec<Viol>>,
@@ -206,6 +212,9 @@ impl World {
             wr: Default::default(),
             #[cfg(feature = "cleaners")]
             cr: Default::default(),
+            bulk: RefCell::new(Vec::new()),
+            #[cfg(feature = "weak-ptrs")]
+            wbulk: RefCell::new(Vec::new()),
             m: RefCell::new(Model::new()),
             stack: RefCell::new(Vec::with_capacity(1024)),
             errs: RefCell::new(Vec::new()),
